@@ -114,9 +114,51 @@ def parseRegion (ws : List String) : Option (Region Float) :=
   | ["C", i, a, b, c] => some (.circle (String.ofList (unhexs i)) (unhexf a) (unhexf b) (unhexf c))
   | _ => none
 
+def optHex : Option Text → String
+  | none => "N" | some t => "S" ++ hexs t
+def optNat : Option Nat → String
+  | none => "N" | some n => toString n
+
+def parserD (p : Parser) : String :=
+  " ".intercalate [
+    "off=" ++ toString p.offset, "len=" ++ toString p.length, "ln=" ++ optNat p.lineNumber,
+    "ty=" ++ (match p.type with | none => "N" | some c => String.singleton c),
+    "code=" ++ optNat p.code, "sub=" ++ optNat p.subCode,
+    "gc=" ++ optHex p.gcode, "par=" ++ optHex p.parameters, "cs=" ++ optNat p.checksum,
+    "lw=" ++ hexs p.leadingWhitespace, "tx=" ++ hexs p.text, "raw=" ++ optHex p.rawChecksum,
+    "tw=" ++ hexs p.trailingWhitespace, "cm=" ++ optHex p.comment, "eol=" ++ hexs p.eol,
+    "full=" ++ hexs p.fullText, "cstr=" ++ hexs p.commandString]
+
+def itemsD (l : List (Item Float)) : String :=
+  if l.isEmpty then "-" else
+  ",".intercalate (l.map (fun i => match i with
+    | .word c v => s!"{c}:{fnum v}"
+    | .strArg t => "_:" ++ hexs t))
+
+def bflag (s : String) : Bool := s == "1"
+
+def parseArgs (s : String) : List (Char × Option Float) :=
+  if s == "-" then [] else
+  (splitC s ',').filterMap (fun e =>
+    match splitC e ':' with
+    | [k, v] => some (k.toList.headD '?', if v == "N" then none else some (unhexf v))
+    | _ => none)
+
+def pluginD (p : Plugin Float) : String :=
+  s!"act={b01 p.activePrintJob} clr={b01 p.clearRegionsAfterPrintFinishes} shr={b01 p.mayShrinkRegionsWhilePrinting} n={p.notifications.length} last={match p.notifications.getLast? with | none => "N" | some l => regionsD l} " ++ stateD p.st
+
 structure DState where
   cfg : Config := {}
   st : FState Float := FState.reset []
+  parser : Parser := {}
+  plugin : Plugin Float := Plugin.initialize {}
+  sp : StreamProc Float := { st := FState.reset [] }
+  spLive : FState Float := FState.reset []
+
+def lineOutD (line : Text) : LineOut Float → String
+  | .unchanged => "line " ++ hexs line
+  | .omit => "omit"
+  | .lines l eol => s!"lines {hexs eol} {renderAll l}"
 
 def step (d : DState) (line : String) : DState × List String :=
   match (line.trimAscii.toString.splitOn " ") with
@@ -136,6 +178,117 @@ def step (d : DState) (line : String) : DState × List String :=
   | ["at", cmd, params, streaming] =>
     match handleAtCommand d.cfg d.st (streaming == "1") (String.ofList (unhexs cmd)) (unhexs params) with
     | .ok (s, handled, sent) => ({ d with st := s }, [s!"at {b01 handled} {renderAll sent}", "st " ++ stateD s])
+    | .error e => (d, ["err " ++ e.name, "st -"])
+  -- ---------------- parser suite
+  | ["pnew"] => ({ d with parser := {} }, ["ok"])
+  | ["parse", src, off] =>
+    let source := if src == "N" then none else some (unhexs (src.drop 1).toString)
+    let offset := if off == "N" then none else some off.toNat!
+    match d.parser.parse source offset with
+    | .ok p => ({ d with parser := p }, ["ok " ++ parserD p])
+    | .error e => (d, ["err " ++ e.name])
+  | ["validate"] =>
+    match d.parser.validate with
+    | .ok _ => (d, ["ok"])
+    | .error e => (d, ["err " ++ e.name])
+  | ["stringify", sep, lw, ln, cs, cm, eol] =>
+    let ics : Option Bool := if cs == "N" then none else some (bflag cs)
+    (d, ["ok " ++ hexs (d.parser.stringify (unhexs sep) (bflag lw) (bflag ln) ics (bflag cm) (bflag eol))])
+  | ["items", src] =>
+    let source := if src == "N" then d.parser.parameters else some (unhexs (src.drop 1).toString)
+    (d, ["ok " ++ itemsD (parameterItems source)])
+  | ["setgcode", v] =>
+    match d.parser.setGcode (unhexs v) with
+    | .ok p => ({ d with parser := p }, ["ok " ++ parserD p])
+    | .error e => (d, ["err " ++ e.name])
+  | ["setparams", v] =>
+    match d.parser.setParameters (unhexs v) with
+    | .ok p => ({ d with parser := p }, ["ok " ++ parserD p])
+    | .error e => (d, ["err " ++ e.name])
+  | ["setline", v] =>
+    let p := { d.parser with lineNumber := if v == "N" then none else some v.toNat! }
+    ({ d with parser := p }, ["ok " ++ parserD p])
+  | ["build", g, args] =>
+    match buildCommand nt (unhexs g) (parseArgs args) with
+    | .ok t => (d, ["ok " ++ hexs t])
+    | .error e => (d, ["err " ++ e.name])
+  | ["checksum", v] => (d, [s!"ok {computeChecksum (unhexs v)}"])
+  | ["fmtnum", v] =>
+    match formatNumber (unhexs v) with
+    | .ok t => (d, ["ok " ++ hexs t])
+    | .error e => (d, ["err " ++ e.name])
+  | ["float", v] => (d, ["ok " ++ hexf (floatOfText (unhexs v))])
+  | ["retractparams", v] => (d, ["ok " ++ hexs (retractParams (unhexs v))])
+  -- ---------------- region / axis / arc suites
+  | "contains" :: x :: y :: ws =>
+    match parseRegion ws with
+    | some r => (d, ["ok " ++ b01 (r.containsPoint (unhexf x) (unhexf y))])
+    | none => (d, ["bad-op"])
+  | "containsregion" :: ws =>
+    match ws.span (· != "/") with
+    | (a, _ :: b) =>
+      match parseRegion a, parseRegion b with
+      | some ra, some rb => (d, ["ok " ++ b01 (ra.containsRegion rb), "rg " ++ regionsD [ra, rb]])
+      | _, _ => (d, ["bad-op"])
+    | _ => (d, ["bad-op"])
+  | ["hypot", x, y] => (d, ["ok " ++ hexf (MathOps.hypot (unhexf x) (unhexf y))])
+  | ["planarc", ex, ey, i, j, cw] =>
+    match planArc d.st.position (unhexf ex) (unhexf ey) (unhexf i) (unhexf j) (bflag cw) with
+    | .ok pts => (d, ["ok " ++ ",".intercalate (pts.map (fun (a, b) => hexf a ++ ":" ++ hexf b))])
+    | .error e => (d, ["err " ++ e.name])
+  | ["arccenter", ex, ey, r, cw] =>
+    match computeArcCenterOffsets d.st.position (unhexf ex) (unhexf ey) (unhexf r) (bflag cw) with
+    | .ok (i, j) => (d, [s!"ok {hexf i}:{hexf j}"])
+    | .error e => (d, ["err " ++ e.name])
+  -- ---------------- plugin suite
+  | "pinit" :: clr :: shr :: ws =>
+    let st : Settings := { clearRegionsAfterPrintFinishes := bflag clr,
+                           mayShrinkRegionsWhilePrinting := bflag shr, cfg := parseCfg ws }
+    let p : Plugin Float := Plugin.initialize st
+    ({ d with plugin := p }, ["ok", "pl " ++ pluginD p])
+  | "psettings" :: clr :: shr :: ws =>
+    let st : Settings := { clearRegionsAfterPrintFinishes := bflag clr,
+                           mayShrinkRegionsWhilePrinting := bflag shr, cfg := parseCfg ws }
+    let p := { d.plugin with settings := st }
+    ({ d with plugin := p }, ["ok", "pl " ++ pluginD p])
+  | ["pevent", name] =>
+    let p := d.plugin.onEvent (Event.ofName name)
+    ({ d with plugin := p }, ["ok", "pl " ++ pluginD p])
+  | "papi" :: anon :: kind :: ws =>
+    let req : Option (ApiReq Float) :=
+      match kind with
+      | "add" => (parseRegion ws).map .add
+      | "update" => (parseRegion ws).map .update
+      | "delete" => match ws with | [i] => some (.delete (String.ofList (unhexs i))) | _ => none
+      | "badtype" => some (.badType "x")
+      | "unknown" => some .unknown
+      | _ => none
+    match req with
+    | some r =>
+      let (p, resp) := d.plugin.onApiCommand (bflag anon) r
+      ({ d with plugin := p }, [s!"resp {match resp with | none => "ok" | some c => toString c}", "pl " ++ pluginD p])
+    | none => (d, ["bad-op"])
+  | ["pget"] => (d, ["ok " ++ regionsD d.plugin.onApiGet])
+  | ["pgcode", cmd, gcode] =>
+    let g := if gcode == "N" then none else some (unhexs (gcode.drop 1).toString)
+    match d.plugin.handleGcodeQueuing inchF (unhexs cmd) g with
+    | .ok (p, r) => ({ d with plugin := p }, [resultD r, "pl " ++ pluginD p])
+    | .error e => (d, ["err " ++ e.name, "pl -"])
+  | ["pat", cmd, params, streaming] =>
+    match d.plugin.handleAtCommandQueuing (bflag streaming) (String.ofList (unhexs cmd)) (unhexs params) with
+    | .ok (p, sent) => ({ d with plugin := p }, ["sent " ++ renderAll sent, "pl " ++ pluginD p])
+    | .error e => (d, ["err " ++ e.name, "pl -"])
+  | ["pscript", ty, name] =>
+    match d.plugin.handleScriptHook (String.ofList (unhexs ty)) (String.ofList (unhexs name)) with
+    | .ok (p, r) =>
+      ({ d with plugin := p }, [match r with | none => "none" | some l => "prefix " ++ renderAll l, "pl " ++ pluginD p])
+    | .error e => (d, ["err " ++ e.name, "pl -"])
+  -- ---------------- stream suite: processor created from the current filter state
+  | ["spnew"] => ({ d with sp := { st := d.st }, spLive := d.st }, ["ok"])
+  | ["spline", line] =>
+    let l := unhexs line
+    match d.sp.processLine d.cfg inchF l with
+    | .ok (sp, o) => ({ d with sp := sp }, [lineOutD l o, "st " ++ stateD sp.st])
     | .error e => (d, ["err " ++ e.name, "st -"])
   | _ => (d, ["bad-op"])
 
